@@ -19,12 +19,12 @@ type fakeItem struct {
 	ts    time.Time
 }
 
-func (f *fakeItem) String(width int) string                             { return f.label }
-func (f *fakeItem) Preview(width int) string                            { return f.label }
-func (f *fakeItem) Parents(uint) ([]pub.Tangible, pub.Tangible)         { return []pub.Tangible{}, nil }
-func (f *fakeItem) Children() pub.Container                             { return nil }
-func (f *fakeItem) Timestamp() time.Time                                { return f.ts }
-func (f *fakeItem) Name() string                                        { return f.label }
+func (f *fakeItem) String(width int) string                              { return f.label }
+func (f *fakeItem) Preview(width int) string                             { return f.label }
+func (f *fakeItem) Parents(uint) ([]pub.Tangible, pub.Tangible)          { return []pub.Tangible{}, nil }
+func (f *fakeItem) Children() pub.Container                              { return nil }
+func (f *fakeItem) Timestamp() time.Time                                 { return f.ts }
+func (f *fakeItem) Name() string                                         { return f.label }
 func (f *fakeItem) SelectLink(input int) (string, *mime.MediaType, bool) { return "", nil, false }
 
 func label(t pub.Tangible) any {
